@@ -65,10 +65,11 @@ static bool same_value(const ref::Arg &a, char t, const rtosc_arg_t &v, const ch
     return true;
 }
 
+static const char *g_decode_base = nullptr;   // non-null: decode the message at this (unaligned) address instead of g_buf
 static void check_decode(const std::string &types, const std::vector<ref::Arg> &args, size_t len, const std::string &cid)
 {
-    const char *msg = g_buf;
-    const std::string sh = shape(types);
+    const char *msg = g_decode_base ? g_decode_base : g_buf;
+    const std::string sh = shape(types) + (g_decode_base ? ",unaligned-address" : "");
     // the value-carrying and valueless tags, in order (brackets are not arguments)
     std::string tags; for(char t : types) if(t != '[' && t != ']') tags += t;
     std::vector<const ref::Arg *> per_tag; { size_t k = 0; for(char t : tags) per_tag.push_back(ref::has_data(t) ? &args[k++] : nullptr); }
@@ -137,6 +138,25 @@ static void one_message(const std::string &addr, const std::string &types, const
         // decode from the reference bytes so that the readers are still checked
         memset(g_buf, 0xA5, sizeof g_buf); memcpy(g_buf, expect.data(), expect.size());
         check_decode(types, args, expect.size(), cid);
+    }
+    // the same message at addresses that are not multiples of 4 (built there and read there): nothing may depend on where
+    // the caller keeps the message
+    {
+        static char ubuf[BUFSZ + 64];
+        std::string good(g_buf, expect.size());
+        for(size_t k = 1; k <= 3; ++k) {
+            char *u = ubuf + k;
+            memset(ubuf, 0xA5, sizeof ubuf);
+            size_t r2 = rtosc_amessage(u, BUFSZ, addr.c_str(), types.c_str(), ra.data());
+            vp::transition();
+            if(r2 != expect.size() || memcmp(u, expect.data(), r2)) { vp::violation("encode-bytes|amessage,unaligned-destination|" + shape(types), cid, "destination at offset " + std::to_string(k) + " from a 4-byte boundary"); break; }
+            memcpy(g_buf, u, r2);              // check_decode reads g_buf: move the window instead of the data
+            // decode in place at the unaligned address
+            g_decode_base = u;
+            check_decode(types, args, r2, cid + "|unaligned" + std::to_string(k));
+            g_decode_base = nullptr;
+        }
+        memcpy(g_buf, good.data(), good.size());
     }
     vp::trace();
     if(!all_ctors) return;
@@ -211,6 +231,8 @@ int main(int argc, char **argv)
         for(size_t v = 0; v < vecs.size(); ++v) {
             if(v == 0) {
                 for(size_t al = 1; al <= max_addr; ++al) one_message(gen::address(al), ts, vecs[v], v, true);
+                // printable addresses that begin like the bundle marker
+                if(ti % 7 == 0) for(const char *a : {"#bundles", "#bundle/status", "#bundl", "#bundleX0", "#"}) one_message(a, ts, vecs[v], v, false);
             } else {
                 // every value vector behind one address length per residue mod 4 (rotating start)
                 for(size_t k = 0; k < (ndata <= 1 ? 4u : 1u); ++k)
